@@ -22,7 +22,7 @@ EXPLANATION = (
     'propagated: a raising feeder signals on_error and stops, the five routed entry points return the error value of '
     'their role, a failed response future becomes an ERROR frame (shared with C10.a). Not decided: that requests on '
     'other streams are afterwards served correctly (a run-time fact).')
-EXPLANATION_ADDED = ('(g) an unsolicited LEASE cannot stall requests (shared C14.f); send_error puts exactly one ERROR frame with the stream id given; a request on a stream id in use is rejected before anything is registered (shared C13.d); the data of the ERROR frame built for whatever a handler raised is text for every exception object, and every construction of a protocol error passes text (C12.g), so serialising the reply cannot kill the sender task; (h) every websocket-style transport hands the frame parser bytes only - the hand-off is guarded by a test of the message type (BINARY / isinstance bytes) or the value comes from an API that returns bytes only - so a TEXT message from the peer is ignored instead of raising in the parser and ending the connection; (i) every function kept in a dispatch table (frame logger, receive dispatch) and the default handed to .get() accepts the number of positional arguments the call site of the table passes.')
+EXPLANATION_ADDED = ('(g) an unsolicited LEASE cannot stall requests (shared C14.f); send_error puts exactly one ERROR frame with the stream id given; a request on a stream id in use is rejected before anything is registered (shared C13.d); the data of the ERROR frame built for whatever a handler raised is text for every exception object, and every construction of a protocol error passes text (C12.g), so serialising the reply cannot kill the sender task; (h) every websocket-style transport hands the frame parser bytes only - the hand-off is guarded by a test of the message type (BINARY / isinstance bytes) or the value comes from an API that returns bytes only - so a TEXT message from the peer is ignored instead of raising in the parser and ending the connection; (i) every function kept in a dispatch table (frame logger, receive dispatch) and the default handed to .get() accepts the number of positional arguments the call site of the table passes; (j) every loop that produces a peer-chosen number of elements (REQUEST_N, up to 2^31-1) suspends once per element, so one credit frame cannot keep the receiver, the sender and the keepalives from running.')
 EXPLANATION = EXPLANATION.replace(' Not decided', ' ' + EXPLANATION_ADDED + ' Not decided', 1) \
     if ' Not decided' in EXPLANATION else EXPLANATION + ' ' + EXPLANATION_ADDED
 ASSUMPTIONS = COMMON_ASSUMPTIONS
@@ -483,6 +483,13 @@ def rule_l(ctx):
     rule_dispatch_table_arity(ctx, 'C12.i', ['rsocket'], 'library dispatch tables')
 
 
+def rule_m(ctx):
+    """A REQUEST_N cannot monopolise the event loop: the credited production loops suspend per element (rule in
+    rules/c06.py next to C06.b, which decides how many elements such a loop produces)."""
+    from .c06 import rule_credit_loops_yield_the_loop
+    rule_credit_loops_yield_the_loop(ctx, 'C12.j')
+
+
 def rule_g(ctx):
     """An unsolicited LEASE frame cannot stall the victim's requests (shared C14.f)."""
     from .c14 import rule_gate_scope
@@ -490,4 +497,4 @@ def rule_g(ctx):
 
 
 RULES = [('C12.a', rule_a), ('C12.b', rule_b), ('C12.c', rule_c), ('C12.d', rule_d), ('C12.e', rule_e),
-         ('C12.f', rule_f), ('C14.f', rule_g), ('C12.b', rule_h), ('C13.d', rule_i), ('C12.g', rule_j), ('C12.h', rule_k), ('C12.i', rule_l)]
+         ('C12.f', rule_f), ('C14.f', rule_g), ('C12.b', rule_h), ('C13.d', rule_i), ('C12.g', rule_j), ('C12.h', rule_k), ('C12.i', rule_l), ('C12.j', rule_m)]
